@@ -474,6 +474,31 @@ func judgeRevisit(c *core.Ctx, in, out []geom.Point, tol float64, detail map[str
 	}
 }
 
+// farDist is a float64 estimate of the distance from p to the segment a-b that stays meaningful when
+// one end of the segment is astronomically far away (it measures from the nearer end and never squares).
+// It only filters inputs; the judgement uses the extended-precision distance.
+func farDist(p, a, b geom.Point) float64 {
+	if math.Max(math.Abs(a.X), math.Abs(a.Y)) > math.Max(math.Abs(b.X), math.Abs(b.Y)) {
+		a, b = b, a
+	}
+	vx, vy, wx, wy := b.X-a.X, b.Y-a.Y, p.X-a.X, p.Y-a.Y
+	m := math.Max(math.Abs(vx), math.Abs(vy))
+	if m == 0 || math.IsInf(m, 0) {
+		return math.Hypot(wx, wy)
+	}
+	ux, uy := vx/m, vy/m // direction, components in [-1, 1]
+	ul := math.Hypot(ux, uy)
+	ux, uy = ux/ul, uy/ul
+	t := wx*ux + wy*uy // signed length of the projection
+	if t <= 0 {
+		return math.Hypot(wx, wy)
+	}
+	if t >= math.Hypot(vx, vy) {
+		return math.Hypot(p.X-b.X, p.Y-b.Y)
+	}
+	return math.Abs(wx*uy - wy*ux)
+}
+
 // runFar is the far_vertex phase: an ordinary simple walk whose first and/or last vertex lies
 // astronomically far away.
 func runFar(c *core.Ctx, idx int) {
@@ -536,6 +561,19 @@ func runFar(c *core.Ctx, idx int) {
 			for k := 0; k < j; k++ {
 				if exact.Orient(gen.EP(pts[i]), gen.EP(pts[j]), gen.EP(pts[k])) == 0 {
 					c.Count("far.collinear_triple_skipped")
+					return
+				}
+			}
+		}
+	}
+	// ... and no vertex within 1e-9 of the ordinary extent of the chord between two others: a chord
+	// from the far vertex passes a vertex at 1e-194 without any float64 test being able to tell
+	// on which side (seed 6: the output crossed itself 1e-194 deep)
+	for i := range pts {
+		for j := 0; j < i; j++ {
+			for k := range pts {
+				if k != i && k != j && farDist(pts[k], pts[i], pts[j]) < 1e-9*scale {
+					c.Count("far.vertex_next_to_a_chord_skipped")
 					return
 				}
 			}
